@@ -1,6 +1,8 @@
 package drv
 
 import (
+	"io"
+	"os"
 	"fmt"
 	"runtime/debug"
 	"sort"
@@ -223,4 +225,25 @@ func CurTraceLen() int {
 		return 0
 	}
 	return len(cur.Recs)
+}
+
+// RunCapture is Run with standard output captured (printf writes there).
+func RunCapture(s *plrt.Script, pt *input.Point, sig *Sig) Result {
+	r, w, err := os.Pipe()
+	if err != nil {
+		return Run(s, pt, sig)
+	}
+	old := os.Stdout
+	os.Stdout = w
+	outc := make(chan string, 1)
+	go func() {
+		b, _ := io.ReadAll(r)
+		outc <- string(b)
+	}()
+	res := Run(s, pt, sig)
+	os.Stdout = old
+	_ = w.Close()
+	res.Stdout = <-outc
+	_ = r.Close()
+	return res
 }
